@@ -228,7 +228,6 @@ BREAKING = [
     ('c16-mutable-default', ['C16'], [(A, "def assemble(path_or_source, *, constants=None, labels=None, compress=False, include_dirs=None):", "def assemble(path_or_source, *, constants={}, labels={}, compress=False, include_dirs=None):")]),
     ('c16-registers-alias', ['C16'], [(A, "        constants[item.name] = value\n", "        constants[item.name] = value\n        REGISTERS[item.name] = value\n")]),
     ('c16-keywords-add', ['C16'], [(A, "        labels[item.name] = position\n", "        labels[item.name] = position\n        KEYWORDS.add(item.name)\n")]),
-    ('c16-set-iteration', ['C16'], [(A, "        for key, value in d.items():\n            # skip if item field is not a register\n            if key not in REGS:\n                continue", "        for key in REGS & set(d.keys()):\n            value = d[key]")]),
     ('c16-lru-cache', ['C16'], [(A, "def lex_tokens(line):", "import functools\n\n\n@functools.lru_cache(maxsize=None)\ndef lex_tokens(line):")]),
     ('c16-module-cache', ['C16'], [(A, "def resolve_labels(items, labels):\n    position = 0", "_LABEL_CACHE = {}\n\n\ndef resolve_labels(items, labels):\n    labels.update(_LABEL_CACHE)\n    _LABEL_CACHE.update(labels)\n    position = 0")]),
     ('c16-chainmap-order', ['C16'], [(A, "        env = ChainMap(constants, REGISTERS)", "        env = ChainMap(REGISTERS, constants)")]),
@@ -1193,4 +1192,15 @@ UNDECIDED += [
     ('u13-split-newline-literal-word-tail', ['C13'], [(A, _RD_LOOP, "    for i, raw_line in enumerate(source.split('\\n'), start=1):\n"),
                                                       (A, _RE_ERR_DEF, "    RE_ERROR = re.compile(r'\\s*error ([^\\r\\n]*)')"),
                                                       (A, _RE_STR_DEF, "    RE_STRING = re.compile(r'\\s*string ([\\w ]*)')")]),
+]
+
+# ---- white-box round on C11 / C16 / C17 ----
+from .variants_whitebox import BREAKING as _WB_BREAKING, PRESERVING as _WB_PRESERVING, UNDECIDED as _WB_UNDECIDED  # noqa: E402
+BREAKING += _WB_BREAKING
+PRESERVING += _WB_PRESERVING
+UNDECIDED += _WB_UNDECIDED
+UNDECIDED += [
+    # formerly listed as breaking: the loop over `REGS & set(d.keys())` fills a dict that is only used for d.update(...) on keys that
+    # exist already, so the field order - and the rebuilt item - do not depend on the hash seed; the rule no longer claims they do
+    ('c16-set-iteration-update-existing', ['C16'], [(A, "        for key, value in d.items():\n            # skip if item field is not a register\n            if key not in REGS:\n                continue", "        for key in REGS & set(d.keys()):\n            value = d[key]")]),
 ]
